@@ -84,13 +84,14 @@ Section Post.
     | XGetDagArg =>
       (chk (n 0%nat) (to MDag) ++ chk (n 1%nat) (fun t => to MInt t || to MString t),
        Some (or_unknown annot))
-    | XGetDagName => (chk (n 0%nat) (to MDag) ++ chk (n 1%nat) (to MDag), Some MString)
+    | XGetDagName => (chk (n 0%nat) (to MDag) ++ chk (n 1%nat) (to MInt), Some MString)
     | XGetDagOp => (chk (n 0%nat) (to MDag), Some (or_unknown annot))
     | XHead =>
       match n 0%nat with
       | None => ([], None)
       | Some (_, None) => ([], None)
       | Some (_, Some (MList e)) => ([], Some e)
+      | Some (_, Some MUnknown) => ([], Some MUnknown)
       | Some (r, Some _) => ([(r, DOperand)], Some MUnknown)
       end
     | XIf =>
@@ -105,7 +106,8 @@ Section Post.
       (match n 0%nat with
        | Some (r, Some t) =>
          match t with
-         | MList (MAny | MString | MInt | MBits _ | MBit) => []
+         | MList (MAny | MUnknown | MString | MInt | MBits _ | MBit) => []
+         | MUnknown => []
          | _ => [(r, DOperand)]
          end
        | _ => []
@@ -123,6 +125,7 @@ Section Post.
         match t with
         | MList (MList i) => ([], Some (MList i))
         | MList i => ([], Some (MList i))
+        | MUnknown => ([], Some MUnknown)
         | _ => ([(r, DOperand)], Some MUnknown)
         end
       | _ => ([], None)
